@@ -4,7 +4,7 @@ from spec import paging as SP
 from ..bits import BV, TOP, lit
 from ..interp import State
 from ..mirwalk import callees, is_user_fn, place_base_types, statements, ty_mentions
-from ..values import Enum, Struct
+from ..values import Ref,  Enum, Struct
 from .common import U64, adt, bv, fn_site, inner, same, sl
 
 LEVEL = 'proof'
@@ -12,22 +12,19 @@ VA = 'addr::VirtAddr'
 PA = 'addr::PhysAddr'
 
 # functions that may build an address value from raw bits, with the reason it is valid there
+# The public constructors the property is about; everything else that assembles an address from raw bits (or calls the unchecked
+# constructor) is a crate-private detail and must be *shown* to produce valid addresses for all inputs (see `audit`), so that private
+# helpers can be renamed, split or merged freely.
 CONSTRUCTORS = {
     VA + '::new_truncate': 'sign-extends bit 47 (bit rule below)',
-    VA + '::new_unsafe': 'unsafe: caller contract; in-crate call sites are justified below',
+    VA + '::new_unsafe': 'unsafe: caller contract; in-crate call sites are audited',
     VA + '::zero': 'constant 0',
     PA + '::new_truncate': 'clears bits 52..63 (bit rule below)',
     PA + '::new_unsafe': 'unsafe: caller contract',
     PA + '::zero': 'constant 0',
-    PA + '::align_down_u64': 'clearing low bits of a valid physical address keeps bits 52..63 clear (bit rule below)',
 }
-# in-crate callers of the unsafe constructors and why the argument is valid
-NEW_UNSAFE_CALLERS = {
-    VA + '::forward_checked_u64': 'interval analysis below',
-    VA + '::backward_checked_u64': 'interval analysis below',
-    'instructions::segmentation::<impl registers::segmentation::Segment64 for registers::segmentation::FS>::read_base': 'value returned by rdfsbase: the FS base register only holds canonical addresses (hardware)',
-    'instructions::segmentation::<impl registers::segmentation::Segment64 for registers::segmentation::GS>::read_base': 'value returned by rdgsbase: the GS base register only holds canonical addresses (hardware)',
-}
+# instructions whose result is an address by hardware fact (the FS/GS base registers only hold canonical addresses)
+HW_ADDRESS_INSNS = ('rdfsbase', 'rdgsbase')
 
 
 def canonical(bits):
@@ -47,6 +44,7 @@ def run(chk):
 
 def census(chk):
     names = {VA, PA}
+    to_audit = {}
     n_agg = 0
     n_fields = 0
     n_trans = 0
@@ -60,14 +58,16 @@ def census(chk):
             rv = s['rv']
             if rv['k'] == 'agg' and rv.get('ak') == 'adt' and rv.get('adt') in names:
                 n_agg += 1
-                chk.ob('who-may-construct', '%s built in %s' % (rv['adt'].split('::')[-1], f['name']), f['name'] in CONSTRUCTORS,
-                       'an address value is assembled from raw bits outside the audited constructors', f['loc'])
+                if f['name'] in CONSTRUCTORS:
+                    chk.ob('who-may-construct', '%s built in %s (public constructor, decided by the bit rules)' % (rv['adt'].split('::')[-1], f['name']), True, '', f['loc'], nontrivial=False)
+                else:
+                    to_audit.setdefault(f['name'], f)
             pro, _ = place_base_types(f, s['pl'])
             for t, e in pro:
                 if e['k'] == 'field' and t.get('k') == 'adt' and t['name'] in names:
                     n_fields += 1
-                    chk.ob('who-may-construct', 'raw field of %s written in %s' % (t['name'].split('::')[-1], f['name']), f['name'] in CONSTRUCTORS,
-                           'the raw u64 inside an address value is assigned outside the audited constructors', f['loc'])
+                    if f['name'] not in CONSTRUCTORS:
+                        to_audit.setdefault(f['name'], f)
             if rv['k'] == 'cast' and rv.get('kind') == 'Transmute' and ty_mentions(rv.get('ty'), names):
                 n_trans += 1
                 chk.ob('who-may-construct', 'transmute into a type holding an address in %s' % f['name'], False, 'transmute to %s' % (rv.get('ty'),), f['loc'])
@@ -90,9 +90,97 @@ def census(chk):
         for bi, c, target, loc in callees(f):
             if target in (VA + '::new_unsafe', PA + '::new_unsafe'):
                 n_calls += 1
-                chk.ob('new-unsafe-callers', '%s called from %s' % (target.split('::', 1)[1], f['name']), f['name'] in NEW_UNSAFE_CALLERS,
-                       'unaudited in-crate use of an unchecked address constructor', loc)
+                to_audit.setdefault(f['name'], f)
     chk.floor('in-crate new_unsafe call sites', n_calls, 4)
+    for name, f in sorted(to_audit.items()):
+        chk.guard('who-may-construct', name, lambda f=f: audit(chk, f))
+
+
+def audit(chk, f):
+    """a crate-private function that assembles an address from raw bits or calls new_unsafe: for all inputs of its parameter types (with the
+    validity invariants of those types), every VirtAddr / PhysAddr it returns or leaves behind `&mut self` is valid"""
+    from ..values import Ref,  Enum
+    from .common import size_ty
+    I = chk.I
+    name = f['name']
+    short = name.replace('structures::paging::', '').replace('instructions::segmentation::', '')
+    subs = [{}]
+    if f['generics']:
+        subs = [{g: size_ty(sz) for g in f['generics']} for sz in ('Size4KiB', 'Size2MiB', 'Size1GiB')]
+    bad = []
+    seen = 0
+    import itertools
+    from .common import declare
+    from .c07 import half_va
+    # a VirtAddr parameter is analysed per canonical half (the interval component then sees one contiguous range)
+    n_va = sum(1 for i in range(f['argc']) if (I.subst_ty(f['locals'][i + 1], {}).get('to') or I.subst_ty(f['locals'][i + 1], {})).get('name') == VA)
+    cases = [(sub, halves) for sub in subs for halves in itertools.product(('lower', 'upper'), repeat=min(n_va, 2))]
+    for sub, halves in cases:
+        st = State()
+        args = []
+        refs = []
+        hv = list(halves)
+        for i in range(f['argc']):
+            t = I.subst_ty(f['locals'][i + 1], sub)
+            tt = t['to'] if t.get('k') == 'ref' else t
+            if tt.get('name') == VA and hv:
+                bits, rg = half_va('arg%d' % i, hv.pop(0))
+                v = Struct(VA, [bits])
+                declare(st, v, {'arg%d' % i: rg})
+            else:
+                v = I.sym_value(tt, 'arg%d' % i, st)
+                if isinstance(v, BV):
+                    st.rng.setdefault('arg%d' % i, [(0, (1 << v.w) - 1)])
+            if t.get('k') == 'ref':
+                st.mem[('arg', 'a%d' % i)] = v
+                args.append(Ref(('arg', 'a%d' % i)))
+                refs.append(('arg', 'a%d' % i))
+            else:
+                args.append(v)
+        outs = I.run(name, args, st, sub)
+        chk.count('function-instances')
+        from .c07 import wrap_sites
+        for o in outs:
+            # an arithmetic overflow check that may fire is, in a build without overflow checks, a wrapped value flowing on into the address
+            ws = [w_ for w_ in wrap_sites(o) if w_[1] == name]
+            if ws:
+                bad.append('%s may wrap in builds without overflow checks' % ws[0][0])
+            if o.kind != 'ret':
+                continue
+            hw = set()
+            for e in o.st.events:
+                if e[0] == 'asm' and any(x in e[1] for x in HW_ADDRESS_INSNS):
+                    for op in e[2]:
+                        v = op.get('v')
+                        if isinstance(v, BV):
+                            hw |= {b[1] for b in v.bits if isinstance(b, tuple) and b[0] == 'v'}
+
+            def visit(v, o=o):
+                nonlocal seen
+                if isinstance(v, Struct) and v.name in (VA, PA) and v.fields and isinstance(v.fields[0], BV):
+                    seen += 1
+                    x = I.norm(o.st, v.fields[0])
+                    syms = {b[1] for b in x.bits if isinstance(b, tuple) and b[0] == 'v'}
+                    if syms and syms <= hw:
+                        return      # the value an rdfsbase/rdgsbase wrote: canonical by hardware fact
+                    if v.name == VA:
+                        if not canonical(x.bits):
+                            r = I.rng_of(o.st, x)
+                            if not r or not all(b < (1 << 47) or a >= (1 << 64) - (1 << 47) for a, b in r):
+                                bad.append('VirtAddr %r' % (x,))
+                    else:
+                        if not all(b == 0 for b in x.bits[52:]):
+                            r = I.rng_of(o.st, x)
+                            if not r or max(b for _, b in r) >= (1 << 52):
+                                bad.append('PhysAddr %r' % (x,))
+                if isinstance(v, (Struct, Enum)):
+                    for y in v.fields:
+                        visit(y)
+            visit(o.val)
+            for loc in refs:
+                visit(o.st.mem.get(loc))
+    chk.ob('who-may-construct', '%s assembles an address outside the public constructors: every address it produces is valid for all inputs' % short,
+           seen > 0 and not bad, '; '.join(sorted(set(bad))[:3]) or 'no address value could be examined', f['loc'])
 
 
 def constructors(chk):
@@ -148,10 +236,17 @@ def constructors(chk):
         chk.ob('checked-constructor', 'PhysAddr::new panics for bit %d set' % j, bool(o) and all(x.kind == 'panic' for x in o), 'paths %r' % (o,), nontrivial=(j == 52))
     # PhysAddr::align_down_u64 keeps validity for any alignment (even symbolic)
     p = I.sym_value(adt(PA), 'p')
-    o = r1(PA + '::align_down_u64', [p, BV.sym(64, 'al')])
+    o = r1(PA + '::align_down', [p, BV.sym(64, 'al')], {'U': {'k': 'uint', 'bits': 64, 'size': False}})
     rets = [x for x in o if x.kind == 'ret']
-    chk.ob('constructor', 'PhysAddr::align_down_u64: bits 52..63 stay clear for every alignment', bool(rets) and all(all(b == 0 for b in inner(x.val).bits[52:]) for x in rets), 'paths %r' % (o,),
-           fn_site(I, PA + '::align_down_u64'))
+
+    def clear52(x):
+        v = I.norm(x.st, inner(x.val))
+        if all(b == 0 for b in v.bits[52:]):
+            return True
+        r = I.rng_of(x.st, v)
+        return bool(r) and max(bb for _, bb in r) < (1 << 52)
+    chk.ob('constructor', 'PhysAddr::align_down: bits 52..63 stay clear for every alignment', bool(rets) and all(clear52(x) for x in rets), 'paths %r' % (o,),
+           fn_site(I, PA + '::align_down'))
     # from_ptr goes through new
     o = r1(VA + '::from_ptr', [BV.sym(64, 'ptr') if False else __import__('x86abs.values', fromlist=['Ptr']).Ptr(addr=BV.sym(64, 'ptr'))], {'T': {'k': 'tuple', 'elems': []}})
     rets = [x for x in o if x.kind == 'ret']
@@ -160,31 +255,10 @@ def constructors(chk):
 
 
 def steps(chk):
-    """every value handed to new_unsafe by the step functions is canonical"""
-    I = chk.I
-    for fn_ in (VA + '::forward_checked_u64', VA + '::backward_checked_u64'):
-        for half, fill in (('lower', 0), ('upper', 1)):
-            st = State()
-            name = 'start'
-            if fill == 0:
-                st.rng[name] = [(0, (1 << 47) - 1)]
-            else:
-                st.rng[name] = [((1 << 64) - (1 << 47), (1 << 64) - 1)]
-            start = Struct(VA, [BV(64, sl(name, 0, 47) + [fill] * 17)])
-            st.rng['count'] = [(0, (1 << 64) - 1)]
-            outs = I.run(fn_, [start, BV.sym(64, 'count')], st)
-            chk.count('function-instances')
-            chk.count('paths', len(outs))
-            somes = [o for o in outs if o.kind == 'ret' and o.val.vname == 'Some']
-            bad = []
-            for o in somes:
-                v = I.norm(o.st, inner(o.val.fields[0]))
-                if not canonical(v.bits):
-                    r = I.rng_of(o.st, v)
-                    if not r or not all(b < (1 << 47) or a >= (1 << 64) - (1 << 47) for a, b in r):
-                        bad.append((v, r))
-            chk.ob('new-unsafe', '%s from the %s half: every Some(address) is canonical' % (fn_.split('::')[-1], half), bool(somes) and not bad and all(o.kind == 'ret' for o in outs),
-                   'non-canonical results %r' % (bad[:2],), fn_site(I, fn_), sample=[repr(inner(o.val.fields[0])) for o in somes][:3])
+    """every address the step functions produce is canonical: decided on the public `Step` impls of VirtAddr and Page<S> (C05's rule,
+    restricted here to its validity clause)"""
+    from .c05 import addr_steps
+    addr_steps(chk, rules=('canonical',), rule_name='new-unsafe')
 
 
 def derived(chk):
